@@ -1043,6 +1043,7 @@ let () = register "c06tcp" (fun line ->
   let kept = ref [] in   (* (index, backend, open) in order of creation *)
   let nk = ref 0 in
   let halfc = ref [] in
+  let hopened = ref [] in
   let counts () = S.concat "," (L.init nb (fun i -> string_of_int (int_of_z st.(i).Stats.cx_active))) in
   let outs = L.map (fun op ->
     let body = S.sub op 1 (S.length op - 1) in
@@ -1052,6 +1053,7 @@ let () = register "c06tcp" (fun line ->
          | [_; r] when S.length r = 2 && Stdlib.String.get r 0 = 'b' ->
            let b = Char.code (Stdlib.String.get r 1) - 48 in
            st.(b) <- Stats.sstep st.(b) Stats.SvConnect;
+           if Stdlib.String.get op 0 = 'H' then hopened := !nk :: !hopened;
            kept := !kept @ [(!nk, b, ref true)]; incr nk; r
          | [_; r] -> r
          | _ -> "?")
@@ -1070,6 +1072,10 @@ let () = register "c06tcp" (fun line ->
            st.(k0) <- Stats.sinit Z0;
            Printf.sprintf "%s closed=%d late=0" r !n
          | _ -> "?")
+      | 'h' when L.mem (int_of_string body) !hopened ->
+        (* the backend had finished already (H): with the client's half-close both directions are over *)
+        let i = int_of_string body in
+        L.iter (fun (k, b, o) -> if k = i && !o then begin o := false; st.(b) <- Stats.sstep st.(b) Stats.SvFinish end) !kept; ""
       | 'h' -> halfc := int_of_string body :: !halfc; ""
       | 'c' when L.mem (int_of_string body) !halfc -> ""
       | 'c' ->
